@@ -974,7 +974,8 @@ def run(chk):
     chk.extra["model_constants"] = consts
     chk.assumptions = [
         "stack depth and wall-clock are runtime behaviour: the model expresses them as recursion depth (import / macro graphs, nesting) and iteration / pass counts",
-        "the evaluator model computes in Z; that evaluated values fit in 64 bits is a hypothesis of C06_stmt_align_total (evaluates_in_i64)",
+        "the evaluator model computes in Z; C06_eval_in_i64 proves that every number it returns fits i64 when the environment's numbers do (env_i64: the Rust type of symbol values and of the pc)",
+        "C06_emit_token_total / C06_codegen_never_panics (over C02's model/Asm.v) hold for tokens of tok_ok: data values of <= 8 bytes, `.text` of a literal shorter than 2^32 bytes; the model can build byte strings of 2^64 - 2^17 bytes or more, for which its `emit` panics (C06_emit_panics_only_if), a Vec cannot",
         "no Known_* class is left: every panic / abort / hang on any generated input is a violation",
         "random mutants whose `.loop` count is not a literal expression <= 4096 are not run (tens of thousands of iterations are legal but take minutes in a debug build); the loop budget itself is tested by the site sweep",
         "a hang verdict is only given by hook H1 (more than %d distinct passes) or by the request watchdog of %d s (>= 1000x the normal request time)" % (CAP_WATCH, int(REQ_TIMEOUT)),
